@@ -7,8 +7,8 @@ import subprocess
 import tempfile
 import time
 
-TESTS_QUICK = ["c20_2x1", "c20_2x2", "c20_2x2_distinct_names", "c20_2x3", "c20_3x1", "c20_3x2"]
-TESTS_THOROUGH = TESTS_QUICK + ["c20_3x3_thorough", "c20_4x1_thorough"]
+TESTS_QUICK = ["c20_2x2_preexisting_files", "c20_2x1", "c20_2x2", "c20_2x2_distinct_names", "c20_2x3", "c20_3x1", "c20_3x2"]
+TESTS_THOROUGH = TESTS_QUICK + ["c20_3x3_thorough", "c20_4x1_thorough", "c20_4x2_thorough"]
 
 
 def _env(chk):
@@ -55,8 +55,11 @@ def run(prop, cfg, tier, seed, chk):
         return 2
     tests = TESTS_THOROUGH if tier == "thorough" else TESTS_QUICK
     configs, violations, errors = [], [], []
-    for t in tests:
-        rc, out = _run_test(chk, t, 3600)
+    # loom explores one test single-threaded; the tests are independent processes and run in parallel.
+    import concurrent.futures
+    with concurrent.futures.ThreadPoolExecutor(max_workers=8) as ex:
+        outcomes = list(ex.map(lambda t: _run_test(chk, t, 3 * 3600), tests))
+    for t, (rc, out) in zip(tests, outcomes):
         parsed = _parse(out)
         configs.extend(dict(test=t, **p) for p in parsed)
         if rc is None:
